@@ -74,6 +74,19 @@ fn main() {
         println!("{}\t{}\t{}", h.id, h.props.join(","), h.about);
       }
     }
+    "selftest" => {
+      engine::install(Mode::Concrete(vec![]), 0);
+      let bad = std::panic::catch_unwind(|| model::selftest()).unwrap_or_else(|_| vec!["oracle self-test panicked".to_string()]);
+      engine::uninstall();
+      if bad.is_empty() {
+        println!("oracle self-test: all cases taken from /repo's own tests agree with the reference semantics");
+      } else {
+        for b in &bad {
+          println!("ORACLE-MISMATCH {}", b);
+        }
+        std::process::exit(1);
+      }
+    }
     "run" => cmd_run(&args[2..]),
     "replay" => cmd_replay(&args[2..]),
     _ => {
